@@ -462,6 +462,8 @@ def show(t):
         return "new %s%s" % (t[1], "[%s]" % show(t[2]) if t[2] is not None else "")
     if k == "unk":
         return "?%s" % (t[1],)
+    if k == "obj":
+        return "%s(%s)" % (t[1], ", ".join(show(x) for x in t[2]))
     return repr(t)
 
 
